@@ -1,1 +1,111 @@
-(** Props/C04.v — placeholder, to be written. *)
+(** Props/C04.v — run/skip/swallow decide execution per iteration; in-arguments are step-scoped. *)
+From PV Require Import Engine EngineProofs.
+Open Scope string_scope.
+Notation RG := (list val -> option string -> option string -> st -> R).
+Notation RP := (string -> option (list val) -> option string -> option string -> st -> R).
+
+(** [cond] is what runs at each execution (each foreach item, each while iteration): the
+    decorators are evaluated against the context of THAT moment *)
+Theorem C04_run_false_skips_body : forall (rg : RG) (rp : RP) sp k s,
+  as_bool s (s_run sp) = Ok false -> cond rg rp sp k s = (OOk, s).
+Proof. exact cond_run_false. Qed.
+Print Assumptions C04_run_false_skips_body.
+
+Theorem C04_skip_true_skips_body : forall (rg : RG) (rp : RP) sp k s,
+  as_bool s (s_run sp) = Ok true -> as_bool s (s_skip sp) = Ok true -> cond rg rp sp k s = (OOk, s).
+Proof. exact cond_skip_true. Qed.
+Print Assumptions C04_skip_true_skips_body.
+
+(** run true and skip false: the body (under retry, if any) executes, and its outcome is
+    routed by swallow *)
+Theorem C04_body_executes : forall (rg : RG) (rp : RP) sp k s,
+  as_bool s (s_run sp) = Ok true -> as_bool s (s_skip sp) = Ok false ->
+  cond rg rp sp k s =
+  match inner rg rp sp k s with
+  | (ORaise (RExn name msg eid), s1) =>
+      lift (as_bool s1 (s_swallow sp)) s1 (fun swallow =>
+      andthen (save_error sp name msg eid swallow s1) (fun s2 =>
+      if swallow then (OOk, s2) else (ORaise (RExn name msg eid), s2)))
+  | (OHandled cause, s1) =>
+      lift (as_bool s1 (s_swallow sp)) s1 (fun swallow =>
+      if swallow then (OOk, s1) else (ORaise cause, s1))
+  | r => r
+  end.
+Proof. exact cond_exec. Qed.
+Print Assumptions C04_body_executes.
+
+(** swallow true: the error is suppressed and the pipeline continues ([OOk]);
+    otherwise it propagates; either way it is recorded first *)
+Theorem C04_swallow : forall (rg : RG) (rp : RP) sp k s name msg eid s1 swallow,
+  as_bool s (s_run sp) = Ok true -> as_bool s (s_skip sp) = Ok false ->
+  inner rg rp sp k s = (ORaise (RExn name msg eid), s1) ->
+  as_bool s1 (s_swallow sp) = Ok swallow ->
+  cond rg rp sp k s =
+  andthen (save_error sp name msg eid swallow s1) (fun s2 =>
+    if swallow then (OOk, s2) else (ORaise (RExn name msg eid), s2)).
+Proof. exact cond_error. Qed.
+Print Assumptions C04_swallow.
+
+(** the truth rule: strings are true only for case-insensitive 'true', '1', '1.0' ... *)
+Theorem C04_truth_rule_strings : forall x,
+  cast_str_to_bool x = true <-> lower x = "true" \/ lower x = "1" \/ lower x = "1.0".
+Proof. exact cast_str_to_bool_spec. Qed.
+Print Assumptions C04_truth_rule_strings.
+
+Theorem C04_truth_rule_formatted : forall s x r,
+  fmt s (VStr x) = Ok r ->
+  as_bool s (VStr x) = Ok (match r with
+                           | VBool b => b
+                           | VStr y => cast_str_to_bool y
+                           | _ => py_truth r
+                           end).
+Proof. exact as_bool_str. Qed.
+Print Assumptions C04_truth_rule_formatted.
+
+(** ... everything else by Python truthiness *)
+Theorem C04_truth_rule_other : forall s v,
+  (forall x, v <> VStr x) -> (forall x e, v <> VPy x e) -> (forall x, v <> VSic x) ->
+  (forall x, v <> VJsonify x) -> as_bool s v = Ok (py_truth v).
+Proof. exact as_bool_plain. Qed.
+Print Assumptions C04_truth_rule_other.
+
+Theorem C04_truth_rule_py : forall s src e r,
+  fmt s (VPy src e) = Ok r -> as_bool s (VPy src e) = Ok (py_truth r).
+Proof. exact as_bool_py. Qed.
+Print Assumptions C04_truth_rule_py.
+
+(** in-arguments are merged into context before anything of the step evaluates ... *)
+Theorem C04_in_set_first : forall (rg : RG) (rp : RP) sp s,
+  run_step rg rp sp s =
+  andthen (match s_while sp with
+           | Some w => while_loop rg rp w sp (set_step_input sp s)
+           | None => foreach_or_cond rg rp sp no_counters (set_step_input sp s)
+           end) (fun s2 => (OOk, unset_step_input sp s2)).
+Proof. exact run_step_in_first. Qed.
+Print Assumptions C04_in_set_first.
+
+(** ... override same-named context keys ... *)
+Theorem C04_in_overrides : forall c pre k v post,
+  Forall (fun kv : val * val => val_eqb (fst kv) (VStr k) = false) post ->
+  sget k (dict_update c (pre ++ (VStr k, v) :: post)%list) = Some v.
+Proof. exact dict_update_visible. Qed.
+Print Assumptions C04_in_overrides.
+
+(** ... and are no longer in context once the step completed normally *)
+Theorem C04_in_removed : forall (rg : RG) (rp : RP) sp s s' d k v,
+  s_in sp = Some d -> In (k, v) d ->
+  run_step rg rp sp s = (OOk, s') -> dict_get k (ctx s') = None.
+Proof. exact run_step_in_removed. Qed.
+Print Assumptions C04_in_removed.
+
+(** * Non-vacuity: run expression changes between foreach iterations *)
+Definition lib4 : library :=
+  [("main", [("steps", Some [
+      mkstep "vincr" BIncr (Some [(VStr "vincr", VStr "cnt"); (VStr "arg", VInt 1)])
+             (Some (VList [VInt 1; VInt 2; VInt 3])) None None
+             (VPy "(cnt < 2)" (ECmp CLt (EName "cnt") (EInt 2))) (VStr "{never}") (VBool false)
+             None (Some (1, 5)%Z)])])].
+Example C04_nonvacuous :
+  let r := api_run EFUEL lib4 "main" [(VStr "cnt", VInt 0); (VStr "never", VStr "FALSE")] None None None (1 # 4) in
+  fst r = OOk /\ sget "cnt" (ctx (snd r)) = Some (VInt 2) /\ sget "arg" (ctx (snd r)) = None.
+Proof. vm_compute. repeat split; reflexivity. Qed.
